@@ -275,4 +275,7 @@ void QXmppPubSubMetadata::serializeForm(QXmppDataForm &form) const
                                      [](Max) { return u"max"_s; },
                                  },
                                  d->maxItems));
+
+    // additional (unknown) fields
+    QXmppExtensibleDataFormBase::serializeForm(form);
 }
